@@ -80,7 +80,17 @@ func runSolvers(script string, tag string) SolveResult {
 			cmd.Stderr = &out
 			_ = cmd.Run()
 			txt := out.String()
-			first := strings.TrimSpace(strings.SplitN(txt, "\n", 2)[0])
+			first := ""
+			rest := txt
+			for {
+				parts := strings.SplitN(rest, "\n", 2)
+				first = strings.TrimSpace(parts[0])
+				if (strings.HasPrefix(first, "WARNING") || first == "") && len(parts) == 2 {
+					rest = parts[1]
+					continue
+				}
+				break
+			}
 			r := SolveResult{Solver: s.name, TimeS: time.Since(start).Seconds(), Raw: txt}
 			switch first {
 			case "unsat":
@@ -173,19 +183,37 @@ func discharge(res *FuncResult, sel func(*Obl) bool, individually bool) {
 	if len(todo) == 0 {
 		return
 	}
-	if !individually && len(todo) > 1 {
+	var qf []*Obl
+	termMu.Lock()
+	for _, o := range todo {
+		if !hasQuant(o.Goal) {
+			qf = append(qf, o)
+		}
+	}
+	termMu.Unlock()
+	if !individually && len(qf) > 1 {
+		qset := map[*Obl]bool{}
+		for _, o := range qf {
+			qset[o] = true
+		}
 		termMu.Lock()
-		f, _ := batchFormula(res, sel)
+		f, _ := batchFormula(res, func(o *Obl) bool { return qset[o] })
 		asserts := append([]*Term{}, res.Axioms...)
 		asserts = append(asserts, Not(f))
 		script := buildScript(asserts, false)
 		termMu.Unlock()
 		r := runSolvers(script, res.Name+"$batch")
 		if r.Status == "unsat" {
-			for _, o := range todo {
-				o.Status, o.Solver, o.TimeS = "unsat", r.Solver+"(batch)", r.TimeS/float64(len(todo))
+			for _, o := range qf {
+				o.Status, o.Solver, o.TimeS = "unsat", r.Solver+"(batch)", r.TimeS/float64(len(qf))
 			}
-			return
+			var rest []*Obl
+			for _, o := range todo {
+				if !qset[o] {
+					rest = append(rest, o)
+				}
+			}
+			todo = rest
 		}
 	}
 	var wg sync.WaitGroup
@@ -206,4 +234,23 @@ func discharge(res *FuncResult, sel func(*Obl) bool, individually bool) {
 		}(o)
 	}
 	wg.Wait()
+}
+
+var quantMemo = map[int]bool{}
+
+func hasQuant(t *Term) bool {
+	if v, ok := quantMemo[t.id]; ok {
+		return v
+	}
+	r := t.Op == "forall" || t.Op == "exists"
+	if !r {
+		for _, a := range t.Args {
+			if hasQuant(a) {
+				r = true
+				break
+			}
+		}
+	}
+	quantMemo[t.id] = r
+	return r
 }
